@@ -515,6 +515,7 @@ func c19(args []string) int {
 	}
 	// (b) Unmarshal on every struct type of the graph whose closure is hook-free (the fragment of c19_roundtrip)
 	pure := map[reflect.Type]bool{}
+	allowPairs := false // also accept structs with a shadow-field hook whose unmarshal side is only derivations
 	var isPure func(t reflect.Type, seen map[reflect.Type]bool) bool
 	isPure = func(t reflect.Type, seen map[reflect.Type]bool) bool {
 		switch t.Kind() {
@@ -542,7 +543,11 @@ func c19(args []string) int {
 				return true
 			}
 			st, ok := g.byType[t]
-			if !ok || st.Hook != "HkNone" || st.Unhook != "UkNone" {
+			if !ok {
+				return false
+			}
+			hooked := st.Hook != "HkNone" || st.Unhook != "UkNone"
+			if hooked && !(allowPairs && strings.HasPrefix(st.Hook, "(HkShadow") && strings.HasPrefix(st.Unhook, "(UkShadow") && strings.HasSuffix(st.Unhook, " 0)") && !st.MPtrRecv) {
 				return false
 			}
 			if seen[t] {
@@ -556,7 +561,7 @@ func c19(args []string) int {
 					}
 					continue
 				}
-				if f.Embed || !isPure(f.T, seen) {
+				if (f.Embed && !hooked) || !isPure(f.T, seen) {
 					return false
 				}
 			}
@@ -603,6 +608,44 @@ func c19(args []string) int {
 			}
 		}
 	}
+	// (b') types whose closure also has shadow-field hooks of the derivation-only shape: the model's Unmarshal with
+	// derivations against the real one, and the model's own dump(load(dump v)) = dump v on the real value
+	allowPairs = true
+	nPairs := 0
+	for _, st := range g.structs {
+		if pure[st.T] || isOpaqueNamed(st.T) || !isPure(st.T, map[reflect.Type]bool{}) {
+			continue
+		}
+		nPairs++
+		for k := 0; k < run.N(3, 15); k++ {
+			f := &filler{r: r, maxDepth: 7, noTLS: true}
+			v := reflect.New(st.T)
+			f.fill(v.Elem(), 0, st.Name)
+			b, err := json.Marshal(v.Interface())
+			if err != nil {
+				continue
+			}
+			back := reflect.New(st.T)
+			if err := json.Unmarshal(b, back.Interface()); err != nil {
+				run.Sum.Distribution["model:decode-real-unmarshal-error"]++
+				continue
+			}
+			j, err := jsonToCoq(b)
+			if err != nil {
+				continue
+			}
+			pr := newVPrinter(false)
+			bv := pr.val(back.Elem())
+			add(fmt.Sprintf("(DecHCase (TNamed %s, %s, %s))", coqStr(st.Name), j, bv), map[string]interface{}{"kind": "decode-hooked", "type": st.Name, "doc": string(b)})
+			add(fmt.Sprintf("(StableCase (TNamed %s, %s))", coqStr(st.Name), bv), map[string]interface{}{"kind": "stable-hooked", "type": st.Name, "doc": string(b)})
+			run.Sum.Distribution["model:decode-hooked-case"]++
+			b2, _ := json.Marshal(back.Interface())
+			if string(b2) != string(b) {
+				run.Fail("json-hooked-unstable:"+st.Name, "Marshal(Unmarshal(Marshal(v))) differs from Marshal(v) for a type with shadow-field hooks", map[string]interface{}{"type": st.Name, "doc": string(b), "second": string(b2)})
+			}
+		}
+	}
+	run.Sum.Extra["shadow_hook_closure_types"] = nPairs
 	// (c) the duration coder law used by the hook pairs: ParseDuration(String(d)) = d
 	durs := []time.Duration{0, 1, 999, 1000, 1500, time.Millisecond, 1500 * time.Microsecond, time.Second, 1500 * time.Millisecond, time.Minute, 90 * time.Second, time.Hour, 1<<63 - 1, -1500 * time.Millisecond}
 	for i := 0; i < run.N(200, 5000); i++ {
